@@ -8,10 +8,10 @@ RULE = ('a scenario catalogue drives one endpoint (both roles) into every state 
         'with the clock advanced by 0.1 ms before every injection (a liveness-timer reset is visible, no timer fires), the victim receives through the real main_loop (and, for a part, '
         'through IkeSaController.dispatch_message and IkeSa.process_message directly): cleartext messages of exchange types 34..37 and unknown ones '
         'x request/response x both initiator-flag values x Message IDs {expected-2..expected+1, 0, 2^32-1} x payload sets (empty, DELETE IKE, '
-        'DELETE child, error NOTIFY, unassigned / unimplemented payload kinds with and without the CRITICAL bit, the payloads an authentic message would carry); every truncation, an extra outer payload (critical or not) spliced in front of the SK payload, bit flips (quick: 3 bit positions per '
+        'DELETE child, error NOTIFY (and a sweep over 34 notification types at the expected Message ID), unassigned / unimplemented payload kinds with and without the CRITICAL bit, the payloads an authentic message would carry); every truncation, an extra outer payload (critical or not) spliced in front of the SK payload, bit flips (quick: 3 bit positions per '
         'octet) and extensions of the last authentic datagram it received and of the authentic datagram in flight towards it; messages protected with OTHER keys; its own last message reflected. '
         'The reference classifies every injected datagram (authentic iff last payload SK and ICV verifies under the peer-direction key). '
-        'For every non-authentic one: full snapshot of every IKE_SA (state, both counters, CHILD_SAs, DPD deadline, retransmission fields, '
+        'Every fifth forgery claims another source address than the peer\'s. For every non-authentic one: full snapshot of every IKE_SA (state, both counters, both addresses, CHILD_SAs, DPD deadline, retransmission fields, '
         'cached response, pending events, successor) equal before/after, no netlink request, SAD unchanged, and no reply other than the '
         'byte-identical IKE_SA_INIT response to a retransmitted IKE_SA_INIT request. distinct = (role, state, forgery class, exchange, id offset, outcome).')
 ASSUMPTIONS = ['an IKE_SA_INIT *request* legitimately creates a new half-open responder object at the controller level; it must leave every existing IKE_SA untouched',
@@ -115,8 +115,13 @@ class Injector:
         n0 = len(sim.net)
         ids_before = {id(x) for x in ep.ctl.ike_sas}
         exc = None
+        # an off-path forger is not bound to the peer's source address: every fifth datagram claims to come from somewhere else
+        src = self.peer_addr
+        if self.n % 5 == 0 and self.via != 'sa':
+            src = '2001:db8:66::66' if ':' in self.peer_addr else '198.51.100.66'
+            ck.count('inject.from_another_source_address')
         if self.via == 'loop':
-            rec = sim.inject(ep, self.peer_addr, self.my_addr, data)
+            rec = sim.inject(ep, src, self.my_addr, data)
             replies = [d.data for d in sim.net[n0:]]
             del sim.net[n0:]
             if rec.died:
@@ -124,7 +129,7 @@ class Injector:
         elif self.via == 'dispatch':
             sim.direct_dispatch = True
             try:
-                rec = sim.inject(ep, self.peer_addr, self.my_addr, data)
+                rec = sim.inject(ep, src, self.my_addr, data)
             finally:
                 sim.direct_dispatch = False
             replies = [d.data for d in sim.net[n0:]]
@@ -220,6 +225,15 @@ def forge_all(ck, inj, rng, thorough):
                         off = (mid - exp) % 2 ** 32
                         off = off if off < 3 else off - 2 ** 32 if off > 2 ** 32 - 4 else 'far'
                         inj.inject(f'clear.{pname}', codec.encode_clear(m), (exch, resp, off, iflag == peer_is_init))
+    # ---- (a2) every notification type in a cleartext message that copies SPIs and the expected Message ID (a peer that lost the IKE_SA would answer like that)
+    NTYPES = [1, 4, 5, 7, 9, 11, 14, 17, 24, 34, 35, 36, 37, 38, 39, 40, 41, 42, 43, 44, 45, 8191, 16384, 16385, 16388, 16389, 16390, 16391, 16393, 16394, 16404, 16418, 40000, 65535]
+    for resp in (True, False):
+        exp = sa.my_msg_id if resp else sa.peer_msg_id
+        for exch in (37, 36, 35) if thorough else (37, {'AUTH_REQ_SENT': 35, 'INIT_RES_SENT': 35}.get(sa.state.name, 36)):
+            for nt in NTYPES:
+                m = {'spi_i': spi_i, 'spi_r': spi_r, 'major': 2, 'minor': 0, 'exch': exch, 'mid': exp, 'flags': (0x08 if peer_is_init else 0) | (0x20 if resp else 0),
+                     'payloads': [{'type': 41, 'critical': False, 'proto': 0, 'spi': b'', 'ntype': nt, 'data': b'' if nt != 17 else b'\x00\x13'}]}
+                inj.inject('clear.notify-sweep', codec.encode_clear(m), (exch, resp, nt))
     # ---- (b) corruptions of authentic datagrams
     sim = inj.sim
     bases = []
